@@ -19,8 +19,9 @@ from harness import adapters_c08 as ac
 ADAPTER = "harness.adapters_c08:Adapter"
 BOOT_ADAPTER = "harness.c08_boot:BootAdapter"
 REND = ["Register", "CallWhenReady", "ListenTo", "GoUp"]
-LIFE = ["GetDeferral", "Release", "Quit"]
-LIFE_CFGS = ("A", "B", "L2", "L3")      # catalogs in which deferrals and quit are explored
+# lifecycle actions that each catalog must exercise (vacuity guard)
+LIFE = {"A": ["GetDeferral", "Release", "Quit"], "B": ["GetDeferral", "Release", "Quit"],
+        "L2": ["Release", "Quit"], "L3": ["Release", "Quit"], "R": ["GetDeferral", "Release"], "RQ": ["GetDeferral", "Release"]}
 SPEC = "core"
 MOD = "MCRendezvous"
 
@@ -99,8 +100,8 @@ def run(ctx):
       "kept event; lifecycle events are expected synchronously inside goUp() / the deferral call / quit()",
       "what a sink gets when its rendezvous happens (listeners for its _handle_<component>_<Event> methods, "
       "attributes, _all_dependencies_met) is taken from listen_to_dependencies' documentation"]
-  mc_cfgs = ["QA", "QB", "L2"] if quick else ["A", "B", "C", "L3"]
-  ex_cfgs = ["QA", "QB", "L2"] if quick else ["QA", "QB", "L2", "L3", "C"]
+  mc_cfgs = ["QA", "QB", "L2", "RQ"] if quick else ["A", "B", "C", "L3", "R"]
+  ex_cfgs = ["QA", "QB", "L2", "RQ"] if quick else ["QA", "QB", "L2", "R", "L3", "C"]
   nsim = 80 if quick else 2500
   with ThreadPoolExecutor(max_workers=4 if quick else 6) as pool:
     f_mc = [(c, pool.submit(_mc, c)) for c in mc_cfgs]
@@ -111,7 +112,7 @@ def run(ctx):
       r = f.result()
       if r.violated:
         raise tlc.TLCError("spec violates its own property %s (%s):\n%s" % (r.violated, c, r.error_trace))
-      tlc.require_coverage(r, REND + (LIFE if c in LIFE_CFGS else []), "Rendezvous " + c)
+      tlc.require_coverage(r, REND + LIFE.get(c, []), "Rendezvous " + c)
       ctx.add_model("Rendezvous catalog %s" % c, r)
     exported = [(c, f.result()) for c, f in f_ex]
     sims = [(c, f.result()) for c, f in f_sim]
@@ -142,7 +143,7 @@ def run(ctx):
   # 4. through pox.boot.boot(): start-up order given by the command line
   nboot = 150 if quick else 1500
   rnd = random.Random(ctx.seed + 77)
-  for c in (["L2", "QB"] if quick else ["L2", "QB", "QA"]):
+  for c in (["L2", "RQ"] if quick else ["L2", "R", "QB", "QA"]):
     cat, behs = dict(exported)[c]
     sample = rnd.sample(behs, min(nboot, len(behs)))
     st = core.replay(ctx, BOOT_ADAPTER, sample, params=dict(catalog=cat, style=(ctx.seed + 2) % 24),
@@ -176,7 +177,8 @@ def run(ctx):
       if ev["a"] in ("CallWhenReady", "ListenTo"):
         sig["deps"] = len(ev["args"]["deps"])
       if ev["a"] == "GoUp":
-        sig["handlers"] = "+".join(ev["args"]["hs"]) or "-"
+        sig["handlers"] = "+".join(".".join(op["k"] for op in p) or "none" for p in ev["args"]["hs"]) or "-"
+        sig["up"] = ".".join(op["k"] for op in ev["args"]["up"]) or "none"
       ctx.report(sig, dict(trace=traces[t], failing_step=matched, catalog=c,
                            note="TLC rejected the trace at this event"))
     ctx.traces += len(traces)
@@ -199,9 +201,36 @@ KINDS = ["none", "hold", "sync", "relprev"]
 
 
 def _args(**kw):
-  a = dict(c="-", w="-", deps=[], hs=[], ur="none", d=0, re=False)
+  a = dict(c="-", w="-", deps=[], hs=[], up=[], o="-", re=False)
   a.update(kw)
   return a
+
+
+def _op(k, c="-", w="-", d=()):
+  return dict(k=k, c=c, w=w, d=sorted(d))
+
+
+def _prog(rnd, comps, cbs, going_up):
+  """a random handler program: at most one kept deferral, "raise" only last and
+  only in the Up handler, "relprev" only in GoingUp handlers"""
+  p = []
+  acq = False
+  for _ in range(rnd.choice([0, 1, 1, 2, 3])):
+    k = rnd.choice(["acq", "sync", "reg", "cwr"] + (["relprev"] if going_up else []))
+    if k == "acq":
+      if acq:
+        continue
+      acq = True
+      p.append(_op("acq"))
+    elif k == "reg":
+      p.append(_op("reg", c=rnd.choice(comps)))
+    elif k == "cwr":
+      p.append(_op("cwr", w=rnd.choice(cbs), d=[c for c in comps if rnd.random() < 0.3]))
+    else:
+      p.append(_op(k))
+  if not going_up and rnd.random() < 0.15:
+    p.append(_op("raise"))
+  return p
 
 
 def drive(arg):
@@ -222,10 +251,10 @@ def drive(arg):
       ops.append(("GoUp", 1))
     else:
       ops.append(("Quit", 1))
-      if ad.deferrals:
-        ops.append(("Release", 3))
-      if len(ad.deferrals) < 4:
+      if len([o for o in ad.held if o.startswith("l")]) < 4:
         ops.append(("GetDeferral", 1))
+    if ad.held:
+      ops.append(("Release", 3))
     k = rnd.choices([o for o, _ in ops], [w for _, w in ops])[0]
     if k == "Register":
       a, args = "Register", _args(c=rnd.choice(comps))
@@ -237,10 +266,11 @@ def drive(arg):
     elif k == "GoUp":
       goneup = True
       a = "GoUp"
-      args = _args(hs=[rnd.choice(KINDS) for _ in range(rnd.randint(0, 3))],
-                   ur=rnd.choice(["none"] + comps))
+      cbs = [w for w in waiters if cat["kind"][w] == "cb"]
+      args = _args(hs=[_prog(rnd, comps, cbs, True) for _ in range(rnd.randint(0, 3))],
+                   up=_prog(rnd, comps, cbs, False))
     elif k == "Release":
-      a, args = "Release", _args(d=rnd.randint(1, len(ad.deferrals)))
+      a, args = "Release", _args(o=rnd.choice(sorted(ad.held)))
     elif k == "GetDeferral":
       a, args = "GetDeferral", _args()
     else:
